@@ -96,6 +96,8 @@ def run(ctx: Ctx) -> None:
         scripts.append(script)
         impl_outs.append(check_script(ctx, script, shuffles=3 if ctx.tier == "quick" else 8))
     ctx.compare("Matryoshka", scripts, impl_outs, what="Matryoshka script outputs")
+    from . import powerpath  # full-stack stage: the same property through the public pool API (real actors)
+    powerpath.run_stage(ctx, {"C03-envelope", "C03-expiry", "C03-history"}, n_quick=40, n_thorough=500)
 
 
 def load_corpus() -> list[dict]:
